@@ -160,6 +160,15 @@ func Assert(label string, c bool) {
 // Lemma is an assertion whose fact the executor may use afterwards on the same path (cut rule).
 func Lemma(label string, c bool) { Assert(label, c) }
 
+// CloseF is float equality as a value (exact under the executor, relative 1e-7 natively), for
+// assertions assembled without branching.
+func CloseF(a, b float64) bool {
+	if math.IsNaN(a) || math.IsNaN(b) || math.IsInf(a, 0) || math.IsInf(b, 0) {
+		return false
+	}
+	return math.Abs(a-b) <= 1e-7*math.Max(1, math.Max(math.Abs(a), math.Abs(b)))
+}
+
 // LemmaEqF is AssertEqF whose proven equality the executor uses as a rewrite in later queries.
 func LemmaEqF(label string, got, want float64) { AssertEqF(label, got, want) }
 
